@@ -719,7 +719,7 @@ impl<'a> VisitMut for Rewriter<'a> {
                     continue;
                 }
                 if let Some(e) = self.rewrite_macro_expr(&sm.mac, line_of(&s)) {
-                    out.push(Stmt::Expr(e, Some(Default::default())));
+                    out.push(Stmt::Expr(e, sm.semi_token));
                     continue;
                 }
             }
@@ -738,7 +738,7 @@ impl<'a> VisitMut for Rewriter<'a> {
                         continue;
                     }
                 };
-                if ns.contains(&an) && !ns.contains("__vxhint_") {
+                if ns.contains(&an) {
                     if self.hint_seen[hi] == h.nth {
                         let id = syn::Ident::new(&format!("__vxhint_{}_{}", self.uid, hi), proc_macro2::Span::call_site());
                         let st: Stmt = parse_quote!(#id!{};);
@@ -971,6 +971,22 @@ impl VisitMut for LoopValueRewriter {
     fn visit_item_mut(&mut self, _i: &mut Item) {}
     fn visit_block_mut(&mut self, b: &mut Block) {
         visit_mut::visit_block_mut(self, b);
+        // a value-producing `loop` in tail position of a block: same desugaring, the block's value becomes `brk.unwrap()`
+        if let Some(Stmt::Expr(Expr::Loop(lp), None)) = b.stmts.last().cloned() {
+            let var = syn::Ident::new(&format!("__vx_brk{}", self.n), proc_macro2::Span::call_site());
+            let mut lp2 = lp.clone();
+            let mut br = BreakRewriter { var: var.clone(), depth: 0, count: 0 };
+            br.visit_block_mut(&mut lp2.body);
+            if br.count > 0 {
+                self.n += 1;
+                let line = line_of(&lp);
+                self.log.push(RewriteLog { rule: "R7".into(), line, detail: format!("tail `loop {{ break v }}` desugared via {} ({} break sites)", var, br.count) });
+                b.stmts.pop();
+                b.stmts.push(parse_quote!(let mut #var = None;));
+                b.stmts.push(Stmt::Expr(Expr::Loop(lp2), None));
+                b.stmts.push(Stmt::Expr(parse_quote!(#var.unwrap()), None));
+            }
+        }
         let stmts = std::mem::take(&mut b.stmts);
         let mut out = Vec::new();
         for s in stmts {
@@ -1299,6 +1315,25 @@ fn process_fn(
         let mut lv = LoopValueRewriter { log: vec![], n: 0, uid: uid.to_string() };
         lv.visit_block_mut(block);
         out.rewrites.extend(lv.log);
+        // R29 (receiver): `mut self` -> `self` plus `let mut vx_self = self;`, every later `self` renamed
+        if let Some(syn::FnArg::Receiver(r)) = sig.inputs.first_mut() {
+            if r.reference.is_none() && r.mutability.is_some() {
+                r.mutability = None;
+                if let syn::Type::Path(_) = &*r.ty { /* `Self` */ }
+                struct SelfRen;
+                impl VisitMut for SelfRen {
+                    fn visit_item_mut(&mut self, _i: &mut Item) {}
+                    fn visit_expr_path_mut(&mut self, p: &mut syn::ExprPath) {
+                        if p.path.is_ident("self") {
+                            p.path = parse_quote!(vx_self);
+                        }
+                    }
+                }
+                SelfRen.visit_block_mut(block);
+                block.stmts.insert(0, parse_quote!(let mut vx_self = self;));
+                out.rewrites.push(RewriteLog { rule: "R29".into(), line: line_of(&sig.ident), detail: "`mut self` receiver -> rebinding `let mut vx_self = self;` (all uses renamed)".into() });
+            }
+        }
     }
     // R29: `mut x: T` parameters -> `x: T` plus `let mut x = x;` (the verifier does not accept `mut` parameters)
     {
